@@ -303,3 +303,43 @@ Section WithDataset.
   Definition bfr (p i : nat) : R := bent Bq p i.
   Definition stableb (k : nat) : bool := bq_is_zero (mu_at k).
 End WithDataset.
+
+(* ---------- sparsity patterns (C01: the progeny closure is read off the pattern of the float matrix C) *)
+Section Patterns.
+  Variable d : dataset.
+  Definition row_cols_q (r : qrow) : list N := map fst (filter (fun kx => negb (Z.eqb (qn (snd kx)) 0)) r).
+  Definition row_cols_f (r : frow) : list N := map fst (filter (fun kx => negb (PrimFloat.eqb (snd kx) PrimFloat.zero)) r).
+  Fixpoint list_eqb_N (a b : list N) : bool :=
+    match a, b with [] , [] => true | x :: a', y :: b' => N.eqb x y && list_eqb_N a' b' | _, _ => false end.
+  (* the four matrices have the same non-zero pattern, row by row (stored column order) *)
+  Definition chk_same_patterns : bool :=
+    all2 (fun r1 r2 => list_eqb_N (row_cols_q r1) (row_cols_q r2)) (ds_c d) (ds_ci d)
+    && all2 (fun r1 r2 => list_eqb_N (row_cols_q r1) (row_cols_f r2)) (ds_c d) (ds_cf d).
+  (* C^-1 float may store explicit zeros where the exact entry is tiny: its pattern must be a subset *)
+  Definition chk_cif_pattern_subset : bool :=
+    all2 (fun r1 r2 => forallb (fun k => existsb (N.eqb k) (row_cols_q r1)) (row_cols_f r2)) (ds_ci d) (ds_cif d).
+
+  (* pattern(C) = reachability closure of the link graph: row i lists i and all its ancestors.
+     anc(i) = {i} U union of anc(p) for the parents p of i; links go forward, so one pass suffices. *)
+  Definition parents_in (iB : list (N * row bq)) (i : N) : list N :=
+    map fst (filter (fun mr => existsb (N.eqb i) (cols bq (snd mr))) iB).
+  Fixpoint insert_N (x : N) (l : list N) : list N :=
+    match l with [] => [x] | y :: r => if N.ltb x y then x :: l else if N.eqb x y then l else y :: insert_N x r end.
+  Definition union_N (a b : list N) : list N := fold_right insert_N b a.
+  (* anc table built in index order: parents have smaller indices *)
+  Definition anc_table_of (rng : list N) (B : mat bq) : list (list N) :=
+    let iB := combine rng B in
+    fold_left (fun tbl i =>
+                 let ps := parents_in iB i in
+                 tbl ++ [insert_N i (fold_right (fun p acc => union_N (nth (N.to_nat p) tbl []) acc) [] ps)])
+              rng [].
+  Definition anc_table : list (list N) := anc_table_of (nrange d) (Bq d).
+  (* the pattern of C is transitively closed: if C_ik <> 0 and C_kj <> 0 then C_ij <> 0 *)
+  Definition chk_pattern_transitive : bool :=
+    forallb (fun r => let cs := row_cols_q r in
+       forallb (fun k => forallb (fun j => existsb (N.eqb j) cs)
+                                 (row_cols_q (nth (N.to_nat k) (ds_c d) []))) cs) (ds_c d).
+  Definition sort_N (l : list N) : list N := fold_right insert_N [] l.
+  Definition chk_pattern_closure : bool :=
+    all2 (fun r anc => list_eqb_N (sort_N (row_cols_q r)) anc) (ds_c d) anc_table.
+End Patterns.
